@@ -1,5 +1,6 @@
 import Beetswap.Proofs.ConnHandler
 import Beetswap.Proofs.Server
+import Beetswap.Proofs.ServerLinkThms
 /-!
 # C06 — Server answers every live want once the block is available
 
@@ -153,5 +154,68 @@ end
 example : ServerSink.writtenOf (ServerSink.run {} [.queue [⟨[1], [2]⟩, ⟨[3], [4]⟩], .poll [], .setStream 0,
     .poll (List.replicate 3 { flush := .ok, sendOk := true })]).2 = [⟨[1], [2]⟩, ⟨[3], [4]⟩] :=
   (Proofs.ServerSink.faultfree_run [⟨[1], [2]⟩, ⟨[3], [4]⟩] 0 3 (by decide)).2.1
+
+
+/-! ### The whole pipeline: server behaviour, swarm routing (`NotifyHandler::Any`), one handler per
+connection (`Model/ServerLink`), for every schedule -/
+section Pipeline
+open Beetswap.ServerLink Beetswap.ServerSink
+open Beetswap.Proofs.ServerLink (Holds Connected ids deliverVia okAns)
+open Beetswap.Proofs.ServerSink (pendingOf)
+
+/-- C06 through the pipeline: nothing vanishes. An event the behaviour has dispatched is in the
+behaviour's queue, is the swarm's pending event, waits in the channel of one connection, was handed
+to the handler of one connection, or was dropped by the swarm and is recorded as lost. -/
+theorem dispatched_is_somewhere (s : ServerLink.State) (hr : ServerLink.Reachable s) (n : Nat) (hn : n < s.nextE) :
+    ∃ pl, pl ≠ .nowhere ∧ Holds s n pl :=
+  Proofs.ServerLink.dispatched_is_somewhere s hr n hn
+
+/-- Conservation per connection, for every behaviour of the sink: blocks taken by the handler
+(written, or in a frame whose `start_send` failed) followed by the blocks still pending are
+exactly the blocks of the events handed to this connection, in order. -/
+theorem pipeline_conservation (s : ServerLink.State) (hr : ServerLink.Reachable s) (c : Nat) (l : Link)
+    (hl : s.links[c]? = some l) : takenOf l.outs ++ pendingOf l.h = blocksOf l.delivered :=
+  Proofs.ServerLink.handler_conservation s hr c l hl
+
+theorem nothing_lost_in_handler (s : ServerLink.State) (hr : ServerLink.Reachable s) (c : Nat) (l : Link)
+    (hl : s.links[c]? = some l) (hd : droppedOf l.outs = []) :
+    writtenOf l.outs ++ pendingOf l.h = blocksOf l.delivered :=
+  Proofs.ServerLink.nothing_lost_in_handler s hr c l hl hd
+
+/-- The swarm drops an event only when every candidate connection is closing or gone, or when a
+connection begins to close while events wait in its channel. -/
+theorem lost_only_by_fault (s : ServerLink.State) (a : Act) (h : (ServerLink.step s a).lost ≠ s.lost) :
+    (a = .giveUp ∧ ∃ e cs, s.pend = some (e, cs) ∧ cs.all (fun c => !usable s.links c) = true) ∨
+    (∃ c l, a = .beginClose c ∧ s.links[c]? = some l ∧ l.cmds ≠ []) :=
+  Proofs.ServerLink.lost_only_by_fault s a h
+
+theorem no_giveUp_with_usable_candidate (s : ServerLink.State) (e : Ev) (cs : List Nat) (hp : s.pend = some (e, cs))
+    (c : Nat) (hc : c ∈ cs) (hu : usable s.links c = true) : ServerLink.step s .giveUp = s :=
+  Proofs.ServerLink.no_giveUp_with_usable_candidate s e cs hp c hc hu
+
+/-- Fault-free delivery through the whole pipeline (behaviour queue → swarm → channel → handler →
+frames on the stream), in order and complete. -/
+theorem faultfree_delivery (s : ServerLink.State) (e : Ev) (rest : List Ev) (c sid : Nat) (l : Link) (n : Nat)
+    (hob : s.outbox = e :: rest) (hpd : s.pend = none) (hl : s.links[c]? = some l) (hp : l.peer = e.peer)
+    (hcl : l.closing = false) (hg : l.gone = false) (hcm : l.cmds = [])
+    (hh : l.h = { pending := none, sink := .ready sid }) (hn : e.blocks.length + 1 ≤ n) :
+    let s' := ServerLink.run s (deliverVia c n)
+    s'.outbox = rest ∧ s'.pend = none ∧ s'.lost = s.lost ∧
+    ∃ l', s'.links[c]? = some l' ∧ l'.cmds = [] ∧ l'.h = { pending := none, sink := .ready sid } ∧
+      l'.delivered = l.delivered ++ [e] ∧
+      writtenOf l'.outs = writtenOf l.outs ++ e.blocks.map encB ∧ droppedOf l'.outs = droppedOf l.outs :=
+  Proofs.ServerLink.faultfree_delivery s e rest c sid l n hob hpd hl hp hcl hg hcm hh hn
+
+/-- Non-vacuity: a peer with two connections wants CID 5, the blockstore has it, one connection
+begins to close after the swarm took the event, the other carries the block to the wire. -/
+def pipelineDemo : List Act :=
+  [.connect 0 1, .connect 0 2, .server (.msg 0 true [{ cid := some 5, cancel := false }]), .drain (fun _ => none),
+   .server (.complete 0 (.hit 9)), .drain (fun _ => none), .take, .beginClose 2, .accept 1, .deliverCmd 1,
+   .handler 1 (.poll []), .handler 1 (.setStream 7), .handler 1 (.poll (List.replicate 3 okAns))]
+
+example : ((ServerLink.run {} pipelineDemo).links[1]?.map (fun l => writtenOf l.outs)) = some [encB (5, 9)] := by decide
+example : (ServerLink.run {} pipelineDemo).nextE = 1 ∧ (ServerLink.run {} pipelineDemo).lost = [] := by decide
+
+end Pipeline
 
 end Beetswap.Props.C06
